@@ -189,3 +189,22 @@ func ipHex(ip string) string {
 	fmt.Sscanf(ip, "%d.%d.%d.%d", &a, &b, &cc, &d)
 	return fmt.Sprintf("%02X%02X%02X%02X", d, cc, b, a)
 }
+
+// liveAfter is time.After for watchdogs whose firing becomes a verdict ("did not return within ..."): when the whole process (or
+// the virtual machine: a snapshot being taken, SIGSTOP) was frozen for longer than d, the watchdog's timer and the deadline of the
+// call it watches expire at the same instant on resume, and which goroutine runs first would decide the verdict. liveAfter
+// therefore does not fire when the clock says d has passed, but 2 s of LIVE time later (twenty 100 ms ticks, each of which a
+// freeze can shorten by at most one tick) - time in which a call whose deadline has expired comes back. A call that really hangs
+// is still reported, 2 s later. (Found by a thorough C06 run during which `vp check` took its copy of the sandbox: all three
+// workers of the four batches running at that moment "hung" at once.)
+func liveAfter(d time.Duration) <-chan time.Time {
+	ch := make(chan time.Time, 1)
+	go func() {
+		<-time.After(d)
+		for i := 0; i < 20; i++ {
+			time.Sleep(100 * time.Millisecond)
+		}
+		ch <- time.Now()
+	}()
+	return ch
+}
